@@ -8,7 +8,8 @@ const DUMMY_HEADER: &str = r#"asn1 { dummy(999) header(999) }
 
 DEFINITIONS AUTOMATIC TAGS::= BEGIN
 "#;
-const DUMMY_FOOTER: &str = r#"END"#;
+// starts on a new line: the snippet may end in an identifier, a number or a line comment
+const DUMMY_FOOTER: &str = "\nEND";
 
 struct MacroInput {
     asn: LitStr,
